@@ -837,8 +837,13 @@ func (p *pkg) cacheFacts() {
 		hashFromSha = strings.Contains(t, `if*hash==""{hashString:=sha256.Sum256([]byte(ctx.Query))`) && strings.Contains(t, "*hash=hex.EncodeToString(hashString[:])")
 		missNoQuery = strings.Contains(t, `ifctx.Query==""{`) && strings.Contains(t, "errors.New(MessageMissingCachedQuery)")
 	}
-	emit("def cache : CacheFacts := { storeOp := %s, touchOnHit := %s, evict := %s, keyIsShaOfText := %s, missWithoutQueryIsNotFound := %s }",
-		storeOp, leanBool(touch), evict, leanBool(hashFromSha), leanBool(missNoQuery))
+	planErrReturns := false
+	if r != nil {
+		t := p.norm(r.Body)
+		planErrReturns = strings.Contains(t, "plan,err:=planner.Plan(ctx)iferr!=nil{returnnil,err}")
+	}
+	emit("def cache : CacheFacts := { storeOp := %s, touchOnHit := %s, evict := %s, keyIsShaOfText := %s, missWithoutQueryIsNotFound := %s, planErrorNotStored := %s }",
+		storeOp, leanBool(touch), evict, leanBool(hashFromSha), leanBool(missNoQuery), leanBool(planErrReturns))
 }
 
 // ---------------------------------------------------------------- http.go
@@ -1023,10 +1028,17 @@ func (p *pkg) mergeFacts() {
 	valueCmp := "ValueCompare.unrecognised"
 	if mv := p.funcs["mergeValuesEqual"]; mv != nil {
 		t := p.norm(mv.Body)
+		// deep comparison: kind, then raw text, then the children (count, names, values recursively), with no
+		// way out in between: exactly two `return nil` (both-nil and the end)
+		iKind := strings.Index(t, "ifvalue1.Kind!=value2.Kind{returnerrors.New(")
+		iRaw := strings.Index(t, "ifvalue1.Raw!=value2.Raw{returnerrors.New(")
+		iLen := strings.Index(t, "iflen(value1.Children)!=len(value2.Children){returnerrors.New(")
+		iRec := strings.Index(t, "iferr:=mergeValuesEqual(child1.Value,child2.Value);err!=nil{returnerr}")
+		iName := strings.Index(t, "ifchild1.Name!=child2.Name{returnerrors.New(")
 		switch {
-		case strings.Contains(t, "value1.Children") || strings.Contains(t, ".Children"):
+		case iKind >= 0 && iKind < iRaw && iRaw < iLen && iLen < iName && iName < iRec && strings.Count(t, "returnnil") == 2:
 			valueCmp = "ValueCompare.deep"
-		case strings.Contains(t, "value1.Raw!=value2.Raw"):
+		case strings.Contains(t, "value1.Raw!=value2.Raw") && !strings.Contains(t, ".Children"):
 			valueCmp = "ValueCompare.rawOnly"
 		}
 	}
